@@ -5,7 +5,13 @@ package coordinator
 import (
 	"time"
 
+	"github.com/openGemini/openGemini/lib/config"
+	"github.com/openGemini/openGemini/lib/errno"
+	"github.com/openGemini/openGemini/lib/logger"
+	"github.com/openGemini/openGemini/lib/metaclient"
+	"github.com/openGemini/openGemini/lib/util/lifted/influx/influxql"
 	meta2 "github.com/openGemini/openGemini/lib/util/lifted/influx/meta"
+	"github.com/openGemini/openGemini/lib/util/lifted/influx/query"
 	"github.com/openGemini/openGemini/lib/util/lifted/vm/protoparser/influx"
 )
 
@@ -31,4 +37,81 @@ func (r *VerifC11Router) SetSameMst(v bool) { r.ctx.writeHelper.sameMst = v }
 
 func (r *VerifC11Router) Route(database, retentionPolicy string, row *influx.Row) (err error, sh *meta2.ShardInfo, partialErr error) {
 	return r.pw.updateShardGroupAndShardKey(database, retentionPolicy, row, r.ctx, false, nil, 0, false)
+}
+
+// VerifC11RouteBatch runs the write path's per-batch routing loop (routeAndMapOriginRows, with the ingestion
+// context prepared as writePointRows does) and reports, per input row, the shard the row was mapped to (0 = the row was
+// not mapped: rejected or dropped). Thin wrapper, no behaviour.
+func VerifC11RouteBatch(mc PWMetaClient, database, retentionPolicy string, rows []influx.Row) (shardOf []uint64, partialErr error, dropped int, err error) {
+	pw := NewPointsWriter(time.Second)
+	pw.MetaClient = mc
+	ctx := getInjestionCtx()
+	defer putInjestionCtx(ctx)
+	ctx.writeHelper = newWriteHelper(pw)
+	if err = ctx.checkDBRP(database, retentionPolicy, pw); err != nil {
+		return nil, nil, 0, err
+	}
+	if retentionPolicy == "" {
+		retentionPolicy = ctx.db.DefaultRetentionPolicy
+	}
+	partialErr, dropped, err = pw.routeAndMapOriginRows(database, retentionPolicy, rows, ctx)
+	shardOf = make([]uint64, len(rows))
+	srm := ctx.getShardRowMap()
+	for i := range srm {
+		for _, rp := range srm[i].rows {
+			for j := range rows {
+				if rp == &rows[j] {
+					shardOf[j] = srm[i].shardInfo.ID
+				}
+			}
+		}
+	}
+	return shardOf, partialErr, dropped, err
+}
+
+// VerifC11ReadMeta is the part of the meta client the shard mapper uses for one measurement.
+type VerifC11ReadMeta interface {
+	Database(name string) (*meta2.DatabaseInfo, error)
+	GetMeasurements(m *influxql.Measurement) ([]*meta2.MeasurementInfo, error)
+	ShardGroupsByTimeRange(database, policy string, min, max time.Time) ([]meta2.ShardGroupInfo, error)
+	GetAliveShards(database string, sgi *meta2.ShardGroupInfo, isRead bool) []int
+}
+
+type verifC11ReadAdapter struct {
+	metaclient.MetaClient // nil: nothing else is called by mapMstShards
+	rm                    VerifC11ReadMeta
+}
+
+func (a *verifC11ReadAdapter) Database(name string) (*meta2.DatabaseInfo, error) {
+	return a.rm.Database(name)
+}
+func (a *verifC11ReadAdapter) GetMeasurements(m *influxql.Measurement) ([]*meta2.MeasurementInfo, error) {
+	return a.rm.GetMeasurements(m)
+}
+func (a *verifC11ReadAdapter) ShardGroupsByTimeRange(database, policy string, min, max time.Time) ([]meta2.ShardGroupInfo, error) {
+	return a.rm.ShardGroupsByTimeRange(database, policy, min, max)
+}
+func (a *verifC11ReadAdapter) GetAliveShards(database string, sgi *meta2.ShardGroupInfo, isRead bool) []int {
+	return a.rm.GetAliveShards(database, sgi, isRead)
+}
+
+// VerifC11MapMstShards runs ClusterShardMapper.mapMstShards for one measurement and returns the ids of the shards the
+// query layer would consult. Thin wrapper, no behaviour.
+func VerifC11MapMstShards(rm VerifC11ReadMeta, database, retentionPolicy, mst string, tmin, tmax time.Time, condition influxql.Expr) ([]uint64, error) {
+	csm := &ClusterShardMapper{Logger: logger.NewLogger(errno.ModuleCoordinator)}
+	csm.MetaClient = &verifC11ReadAdapter{rm: rm}
+	src := &influxql.Measurement{Database: database, RetentionPolicy: retentionPolicy, Name: mst, EngineType: config.TSSTORE}
+	csming := NewClusterShardMapping(csm, tmin, tmax)
+	if err := csm.mapMstShards(src, csming, tmin, tmax, condition, &query.SelectOptions{}); err != nil {
+		return nil, err
+	}
+	var ids []uint64
+	for _, byPt := range csming.ShardMap {
+		for _, shs := range byPt {
+			for _, sh := range shs {
+				ids = append(ids, sh.ID)
+			}
+		}
+	}
+	return ids, nil
 }
